@@ -1,1 +1,5 @@
 import SemverSpec.Precedence
+import SemverSpec.NpmDiff
+import SemverSpec.Sets
+import SemverSpec.VersionLang
+import SemverSpec.Location
